@@ -223,10 +223,11 @@ def params_of(extra):
     return p
 
 
-def judge(ctx, mode, extra, obs, acc):
-    from mc import xmaptext
+def in_child(ctx, mode, extra, obs):
+    """runs inside the run's own process (the row objects do not leave it): judge every returned row and every candidate row"""
     p = params_of(extra)
     found = []
+    stats = []
     rows = []
     if obs.result is not None:
         rows += [('returned', r) for r in obs.result.rows]
@@ -251,19 +252,27 @@ def judge(ctx, mode, extra, obs, acc):
             if len(ne) == 1 and ne[0].segmentScore < p['ms'] - 1e-6:
                 found.append(('untrimmed-segment-below-given-minScore', 'mode=%s extra=%s qry=%s segment score %s < -ms %s' % (
                     mode, list(extra), row.queryId, ne[0].segmentScore, p['ms']), origin, {}))
+        stats.append((origin, boundary, nseg, unp, int(row.queryId), rev, round(float(row.confidence), 2)))
+    want = ['%.2f' % r.confidence for r in obs.result.rows] if obs.result is not None else None
+    return dict(found=found, stats=stats, want=want)
+
+
+def judge(ctx, mode, extra, obs, acc):
+    from mc import xmaptext
+    ex = obs.extra or dict(found=[], stats=[], want=None)
+    found = list(ex['found'])
+    for origin, boundary, nseg, unp, qid, rev, conf in ex['stats']:
         if acc is not None:
             acc.classes[origin + '-rows'] += 1
             if boundary:
                 acc.classes['boundary_unpaired'] += boundary
             if nseg >= 2 or unp or extra:
-                acc.nontriv((ctx.key, mode, extra, origin, int(row.queryId), rev, round(row.confidence, 2), nseg))
+                acc.nontriv((ctx.key, mode, extra, origin, qid, rev, conf, nseg))
     # Confidence text of the main file = confidence of the returned rows, two decimals
-    if obs.result is not None and 'main' in obs.files:
-        recs = xmaptext.parse(obs.files['main'])[2]
-        want = ['%.2f' % r.confidence for r in obs.result.rows]
-        got = [r['Confidence'] for r in recs]
-        if want != got:
-            found.append(('confidence-text', 'mode=%s file main: written %s, rows have %s' % (mode, got, want), 'writer', {}))
+    if ex['want'] is not None and 'main' in obs.files:
+        got = [r['Confidence'] for r in xmaptext.parse(obs.files['main'])[2]]
+        if ex['want'] != got:
+            found.append(('confidence-text', 'mode=%s file main: written %s, rows have %s' % (mode, got, ex['want']), 'writer', {}))
     return found
 
 
@@ -276,7 +285,8 @@ def layers(tier, seed):
     else:
         sets = settings(2)
         la = [LayerA('A:NR4,NQ4', 4, 4, TUPLES), LadderA('A:indel-ladders', True, TUPLES), LayerA('A:NR5,NQ4', 5, 4, TUPLES[:6])]
-    lb = e2e.WorldLayer('B:worlds', ws, judge, modes=('best', 'separate'), extras=sets, keep_result=True, extensions=[sink.Rows],
+    ws = ws + e2e.same_locus_worlds()
+    lb = e2e.WorldLayer('B:worlds', ws, judge, modes=('best', 'separate'), extras=sets, keep_result=True, extensions=[sink.Rows], in_child=in_child,
                         bounds=dict(worlds=len(ws), modes=['best', 'separate'], settings=[list(s) for s in sets]),
                         rule='%d worlds x 2 modes x %d CLI settings (<=%d deviations); returned rows and all candidate rows' % (
                             len(ws), len(sets), 1 if tier == 'quick' else 2))
